@@ -33,3 +33,27 @@ PROPS["C11"] = dict(
                  thorough=dict(cases=45000, size=300, enum=2, procs=16))],
     min_evaluations=dict(quick=20000, thorough=400000),
 )
+
+PROPS["C12"] = dict(
+    title="Encoded bytes follow the Parquet encoding specifications",
+    level="exploration",
+    design_ref="DESIGN.md section 8, C12",
+    level_text=("Differential testing against independent codecs written from the Parquet encodings specification "
+                "(ref/enc_ref.hpp, self-checked against the specification's example vectors at start-up), in both directions; "
+                "the reference encoder explores the layout freedom the specification allows. Exploration only: it shows agreement "
+                "on the generated streams."),
+    level_note="trusts ref/enc_ref.hpp as a faithful reading of the specification (cross-checked by its own round trip on every direction-2 case; disagreement is counted as oracle_disagreement, never as a violation)",
+    technique="property-based differential testing (rapidcheck) against independent specification encoders/decoders, both directions",
+    rule=("direction 1: carquet encoder output (hybrid RLE, bit packing, DELTA_BINARY_PACKED int32/int64, DELTA_LENGTH, DELTA_BYTE_ARRAY, "
+          "BYTE_STREAM_SPLIT, PLAIN) decoded by the reference decoder; direction 2: reference encoder with a generated layout plan "
+          "(run cuts, zero-length runs, multi-group packed runs, padded final group, block size 128..1024 x 1..32 mini-blocks, widths "
+          "wider than necessary, arbitrary width bytes for unused mini-blocks, prefix policies) decoded by carquet. Non-trivial: "
+          "direction-2 stream using a form carquet's encoder never emits; direction-1 stream with an unaligned long run, more than one "
+          "delta block, a delta width > 32 or a non-byte-multiple width. Distinct = FNV-1a-64 of the serialised case."),
+    assumptions=["the reference codecs in ref/enc_ref.hpp implement the Parquet encodings specification",
+                 "INT32 delta streams are compared modulo 2^32 (both delta conventions decode to the same values)"],
+    engines=[pbt("c12_spec",
+                 quick=dict(cases=10000, size=150, procs=4),
+                 thorough=dict(cases=50000, size=300, procs=16))],
+    min_evaluations=dict(quick=20000, thorough=400000),
+)
